@@ -380,6 +380,49 @@ static void quality_dump(const char *op) {
   ref_grid_free(g);
 }
 
+static void my_op(const char *phase, const char *kind, void *object, int n, const int *ints);
+
+/* qsmooth: the real ref_smooth_tet_improve on the interior vertex n1 of a 3-D configuration under the band of
+   words 4,5; prints the two records of the run-level hook (MB ... / ME ...) on ONE line, separated by " ; " */
+static void smooth_dump(void) {
+  REF_GRID g = NULL;
+  REF_NODE ref_node;
+  REF_INT i;
+  REF_DBL m[6];
+  int ints[3];
+  if (!build(&g)) {
+    fprintf(out, "bad-op\n");
+    return;
+  }
+  ref_node = ref_grid_node(g);
+  if (!HAS_TET || ref_cell_node_empty(ref_grid_tet(g), N1) || !ref_cell_node_empty(ref_grid_tri(g), N1)) {
+    fprintf(out, "bad-op\n");
+    ref_grid_free(g);
+    return;
+  }
+  for (i = 0; i < NN; i++) {
+    if (REF_SUCCESS != ref_node_metric_get(ref_node, i, m) || REF_SUCCESS != ref_node_metric_set(ref_node, i, m)) {
+      fprintf(out, "bad-op\n");
+      ref_grid_free(g);
+      return;
+    }
+  }
+  ref_node->min_volume = 1.0e-15;
+  ints[0] = N1;
+  ints[1] = ints[2] = -1;
+  fprintf(out, "QM ");
+  my_op("begin", "smooth_tet", g, 3, ints);
+  fflush(out);
+  if (REF_SUCCESS != ref_smooth_tet_improve(g, N1)) {
+    fprintf(out, "QX smoother-status\n");
+    ref_grid_free(g);
+    return;
+  }
+  fprintf(out, "QM ");
+  my_op("end", "smooth_tet", g, 3, ints);
+  ref_grid_free(g);
+}
+
 static void param_level(void) {
   REF_GRID g = NULL;
   while (h_next(stdin)) {
@@ -439,6 +482,8 @@ static void param_level(void) {
       fprintf(out, " %s %d\n", h_status(s), all_done ? 1 : 0);
     } else if (0 == strcmp(op, "qsplit") || 0 == strcmp(op, "qcollapse")) {
       quality_dump(op);
+    } else if (0 == strcmp(op, "qsmooth")) {
+      smooth_dump();
     } else {
       fprintf(out, "bad-op\n");
     }
